@@ -6,7 +6,7 @@
 Require Extraction.
 Require Import ExtrOcamlBasic.
 From SwiftMT Require Import Base.Bytes Dispatch.Model Dispatch.Facts Dispatch.Instance.
-From SwiftMT Require Import Dates.DateTime Num.Amount Classify.Model.
+From SwiftMT Require Import Dates.DateTime Num.Amount Classify.Model Headers.Hdr12 Headers.Hdr35 Headers.B3 Headers.Blocks.
 From SwiftMT Require Import Base.StrOps Engine.Layout Engine.Tokens Engine.Extract Engine.Instance.
 
 Extraction "swiftmt_model.ml"
@@ -17,4 +17,6 @@ Extraction "swiftmt_model.ml"
   Engine.Extract.b_detect Engine.Extract.b_complete
   Dates.DateTime.date_of Dates.DateTime.parse_time_hhmm Dates.DateTime.offset_ok Dates.DateTime.format_yymmdd Dates.DateTime.format_hhmm
   Num.Amount.parse_amount Num.Amount.parse_amount_dec Num.Amount.to_bits Num.Amount.format_amount Num.Amount.to_dec
-  Classify.Model.has_reject Classify.Model.has_return Classify.Model.is_cover Classify.Model.plugin_method.
+  Classify.Model.has_reject Classify.Model.has_return Classify.Model.is_cover Classify.Model.plugin_method
+  Headers.Hdr12.parse_b1 Headers.Hdr12.display_b1 Headers.Hdr12.parse_b2 Headers.Hdr12.display_b2 Headers.Hdr12.message_type_of
+  Headers.Blocks.extract_block Headers.Blocks.trailer_display Headers.Blocks.user_header_display Headers.Hdr35.read_tag.
